@@ -132,6 +132,55 @@ class Exec:
         return f
 
 
+# The successor-building tail of jumpi is hand-modelled (Model/SymExec.v sexec, SBranch case; Model/SymCalls.v
+# local_step): which states are created, under which condition, at which pc, with which visit counters, and what
+# happens when the destination is invalid.  It is pinned statement by statement (comments and layout are free);
+# any other tail fails closed, and the hand model has to be re-read against the new code.
+TAIL = [
+    "new_ex_true = None",
+    "new_ex_false = None",
+    """if follow_true and target not in ex.pgm.valid_jumpdests():
+    if not is_symbolic_cond:
+        ex.path.append(cond_true, branching=True)
+        raise InvalidJumpDestError(f'Invalid jump destination: 0x{target:X}')
+    bad_ex = self.create_branch(ex, cond_true, ex.pc)
+    bad_ex.st.push(ONE)
+    bad_ex.st.push(BV(target))
+    stack.push(bad_ex)
+    follow_true = False""",
+    """if follow_true:
+    if follow_false:
+        new_ex_true = self.create_branch(ex, cond_true, target)
+    else:
+        new_ex_true = ex
+        new_ex_true.path.append(cond_true, branching=True)
+        new_ex_true.advance(pc=target + 1)""",
+    """if follow_false:
+    new_ex_false = ex
+    new_ex_false.path.append(cond_false, branching=True)
+    new_ex_false.advance()""",
+    """if new_ex_true:
+    if is_symbolic_cond:
+        new_ex_true.jumpis[jid] = {True: visited[True] + 1, False: visited[False]}
+    stack.push(new_ex_true)""",
+    """if new_ex_false:
+    if is_symbolic_cond:
+        new_ex_false.jumpis[jid] = {True: visited[True], False: visited[False] + 1}
+    stack.push(new_ex_false)""",
+]
+
+
+def _check_tail(stmts):
+    stmts = [s for s in stmts if not (isinstance(s, ast.Expr) and isinstance(s.value, ast.Constant) and isinstance(s.value.value, str))]
+    got = [ast.unparse(s) for s in stmts]
+    want = [ast.unparse(ast.parse(t)) for t in TAIL]
+    if len(got) != len(want):
+        raise TranslateError(f"jumpi: the successor-building tail has {len(got)} statements, the modelled one {len(want)}")
+    for i, (g, w) in enumerate(zip(got, want)):
+        if g != w:
+            raise TranslateError(f"jumpi: statement {i} of the successor-building tail is not the modelled one: {g[:120]!r}")
+
+
 def translate(src_text):
     tree = ast.parse(src_text)
     fn = find_function(tree, "jumpi", cls="SEVM")
@@ -144,6 +193,7 @@ def translate(src_text):
             break
     if end is None:
         raise TranslateError("jumpi: `new_ex_true = None` marker not found")
+    _check_tail(body[end:])
     ex = Exec()
     # branches of an if may assign versions independently; keep version numbers unique
     ex.run(body[:end])
